@@ -15,6 +15,7 @@ import (
 	"sync/atomic"
 	"time"
 
+	"github.com/tailscale/setec/acl"
 	"github.com/tailscale/setec/audit"
 	setec "github.com/tailscale/setec/client/setec"
 	"github.com/tailscale/setec/db"
@@ -110,6 +111,30 @@ func traceConc(o opts) error {
 		results := make([][]concCall, nthreads)
 		var wg sync.WaitGroup
 		start := make(chan struct{})
+		exactLister := r.Intn(2) == 0
+		// in a third of the direct histories the state directory disappears for short moments, so
+		// some saves fail while other calls are running
+		faulty := via == "db" && r.Intn(3) == 0
+		stopFaults := make(chan struct{})
+		faultsDone := make(chan struct{})
+		go func() {
+			defer close(faultsDone)
+			if !faulty {
+				return
+			}
+			<-start
+			for {
+				select {
+				case <-stopFaults:
+					return
+				case <-time.After(150 * time.Microsecond):
+				}
+				if os.Rename(dir, dir+".off") == nil {
+					time.Sleep(250 * time.Microsecond)
+					os.Rename(dir+".off", dir)
+				}
+			}
+		}()
 		for t := 0; t < nthreads; t++ {
 			wg.Add(1)
 			go func() {
@@ -121,6 +146,12 @@ func traceConc(o opts) error {
 					if via == "db" {
 						c := su
 						c.Principal.Hostname = fmt.Sprintf("conc-t%d", t)
+						if op.kind == "list" && exactLister {
+							// a caller whose info grant names the secrets literally (no wildcard): the
+							// same view as the all-access caller here, by another route through List
+							c.Permissions = acl.Rules{{Action: []acl.Action{acl.ActionInfo}, Secret: []acl.Secret{"x", "y"}},
+								{Action: []acl.Action{acl.ActionGet, acl.ActionPut, acl.ActionActivate, acl.ActionDelete}, Secret: []acl.Secret{"*"}}}
+						}
 						res = execDirect(d, c, op)
 					} else {
 						res = execClient(cl, op)
@@ -132,6 +163,8 @@ func traceConc(o opts) error {
 		}
 		close(start)
 		wg.Wait()
+		close(stopFaults)
+		<-faultsDone
 		final, err := readDisk(path, kek)
 		if err != nil {
 			final = "ERR:" + hx(err.Error())
@@ -184,6 +217,9 @@ func traceConc(o opts) error {
 				}
 			}
 			ss.mu.Unlock()
+		}
+		if faulty {
+			via = "db+faults"
 		}
 		emit("conc\tvia=%s\tseed=%s\tcalls=%s\tfinal=%s\taudit=%s/%d/%d\tunsynced=%d", via, seedState, strings.Join(parts, ";"), final, wellFormed, lines, ncalls+nseed, unsynced)
 		os.RemoveAll(dir)
